@@ -83,6 +83,7 @@ EXPECTED_PROBES = [
     "probe.crash_after_tombstone_reached_sstable", "probe.compaction_requested_while_one_in_progress",
     "probe.wal_kept_entries_of_newer_memtable_across_flush", "probe.sync_api_write_in_workload",
     "probe.follow_up_workload_wanted_compaction", "probe.compaction_ran_after_crash_inside_compaction_window",
+    "probe.crash_after_concurrent_flushes_with_different_write_times", "probe.second_crash_while_replayed_memtable_is_being_flushed",
     "workloads_policy_every", "workloads_policy_batch", "workloads_policy_periodic",
 ]
 SHRINK_SKIP = ("keys", "kind", "strategy", "klass", "policy")
@@ -244,6 +245,7 @@ class World:
         self.by_seq = {}
         self.sync_api_ops = 0
         self.prior_values = {}
+        self.replay_memtable = None
         if base is None:
             seed_globals(sc.get("seed", 0) if isinstance(sc.get("seed", 0), int) else 0)
             self.tag = "v"
@@ -255,6 +257,7 @@ class World:
         else:
             self.tag = "x"
             self.sync_api_ops = base.sync_api_ops
+            self.replay_memtable = base.lsm._memtable if base.lsm._memtable.size else None
             self.lsm, ents = base.lsm, [base.lsm]
             self.hist = base.hist
             self.writes = {k: [_pseudo_initial(k, recovered[k])] for k in self.keys}
@@ -278,12 +281,14 @@ class World:
         self.stop_at = stop_at
         self.phase_log = []  # per delivery: (flush in flight, compaction in flight, wal size, digest prefix)
         self.watch = DurabilityWatch(self)
+        self.fow = S.FlushOrderWatch(self.lsm)
         self.watch.observe()
         self._mark, self._syncs = self.wal.synced_up_to, self.wal.stats.syncs
         self.mon = Monitor(self.sim, cap=CAP, invariant=self._after)
 
     def _after(self, ev, mon):
         self.watch.observe()
+        self.fow.observe()
         # fine: the durability mark is the observation channel of the oracle, so it must be honest:
         # it moves only forward and only in a delivery in which an fsync completed
         mark, syncs = self.wal.synced_up_to, self.wal.stats.syncs
@@ -301,6 +306,9 @@ class World:
                                    len(self.wal._entries), mon.digest))
         elif mon.seq == self.stop_at:
             raise StopAt()
+
+    def replayed_frozen(self) -> bool:
+        return self.replay_memtable is not None and any(m is self.replay_memtable for m in self.lsm._immutable_memtables)
 
     def run(self):
         """-> 'done' | 'stopped' | ('violation', sig, msg)"""
@@ -363,7 +371,44 @@ def _gen_ops(rng, n_keys, n, sync_api):
     return out
 
 
+def _gen_wide(rng, tier):
+    """Many keys, memtable 16: the first phase leaves ~10-20 entries to be replayed; the follow-up is a burst of many concurrent
+    single-put writers right after recovery (the replayed memtable is over-filled to >= 32 keys and takes two pages to write) plus a
+    later, smaller burst whose 16-key memtable is written faster; second crashes are sampled densely inside those flush windows."""
+    n_keys = rng.randint(40, 48)
+    keys = sorted(f"k{i:02d}" for i in rng.sample(range(100), n_keys))
+    policy = rng.choice(["every", "batch", "periodic"])
+    eng = S.gen_lsm_spec(rng, memtable=16, wal="no")
+    eng["wal"] = S.gen_wal_spec(rng, policy)
+    eng["w_us"] = rng.choice([2000, 2000, 5000])
+    order = rng.sample(range(n_keys), n_keys)
+    n1 = rng.randint(10, 20)
+    writers = [{"start_ns": rng.choice([0, 0, 50_000]), "ops": [{"op": "put", "k": order[i], "gap_ns": 0}]} for i in range(n1)]
+    after, pos, t = [], n1, 0
+    for g in range(rng.randint(2, 3)):
+        size = rng.choice([17, 18, 20, 22]) if g == 0 else rng.choice([8, 16, 16, 17])
+        for _ in range(size):
+            after.append({"start_ns": t, "ops": [{"op": "put" if rng.random() < 0.9 else "delete", "k": order[pos % n_keys], "gap_ns": 0}]})
+            pos += 1
+        t += rng.choice([50_000, 100_000, 100_000, 200_000])
+    sc = {"kind": "crash", "klass": "wide", "seed": rng.getrandbits(32), "keys": keys, "engine": eng, "writers": writers,
+          "after": {"writers": after}, "crash": {"ks": [], "second": []}}
+    r2 = random.Random(sc["seed"])
+    w, st = baseline(sc)
+    L = len(w.phase_log)
+    sc["crash"]["ks"] = choose_crash_points(w.phase_log, r2, 24 if tier == "quick" else 120)
+    if L and not isinstance(st, tuple):
+        for k in sorted({L} | set(r2.sample(range(max(1, L - 20), L + 1), min(2, L)))):
+            L2 = _second_phase_length(sc, k)
+            if L2:
+                sc["crash"]["second"].extend([k, j] for j in choose_crash_points(L2, r2, 14 if tier == "quick" else 80,
+                                                                                  12 if tier == "quick" else 60))
+    return sc
+
+
 def gen(rng, tier):
+    if rng.random() < 0.12:
+        return _gen_wide(rng, tier)
     n_keys = rng.randint(3, 5)
     keys = sorted(f"k{i:02d}" for i in rng.sample(range(100), n_keys))
     policy = rng.choice(["every", "batch", "periodic"])
@@ -389,7 +434,7 @@ def gen(rng, tier):
     # a few second-crash indices inside the follow-up phase (all of them when it is short)
     if ks and not isinstance(st, tuple):
         hot = [k for k in ks if k <= len(w.phase_log) and (w.phase_log[k - 1][0] or w.phase_log[k - 1][1])]
-        firsts = set(r2.sample(hot, min(len(hot), 3))) | set(r2.sample(ks, min(len(ks), 2)))
+        firsts = set(r2.sample(hot, min(len(hot), 3))) | set(r2.sample(ks, min(len(ks), 2))) | {ks[-1]}
         for k in sorted(firsts):
             L2 = _second_phase_length(sc, k)
             if L2:
@@ -439,6 +484,7 @@ def crash_recover_judge(W: World, label: str, C: dict, states: set, sc: dict, ph
     ph = W.tracker.phases()
     in_flush = ph["flush"] > 0 or len(lsm._immutable_memtables) > 0
     in_comp = ph["compact"] > 0
+    replay_frozen = W.replayed_frozen()
     in_append = sum(1 for g in W.tracker.procs if g.gi_frame is not None and "append" in S.gen_chain(g))
     synced = wal.synced_up_to
     pre_wal = {e.sequence_number: e for e in wal._entries}
@@ -489,6 +535,9 @@ def crash_recover_judge(W: World, label: str, C: dict, states: set, sc: dict, ph
     C["probe.crash_after_tombstone_reached_sstable"] += int(W.watch.tomb_in_sst)
     C["probe.compaction_requested_while_one_in_progress"] += int(W.watch.compaction_requests_while_busy > 0)
     C["probe.wal_kept_entries_of_newer_memtable_across_flush"] += int(W.watch.truncations > 0 and len(pre_wal) > 0)
+    C["probe.crash_after_concurrent_flushes_with_different_write_times"] += int(W.fow.different_write_times)
+    if phase == "second":
+        C["probe.second_crash_while_replayed_memtable_is_being_flushed"] += int(in_flush and replay_frozen)
     C["_sim_ns"] = C.get("_sim_ns", 0) + W.mon.last_time_ns
     states.add(repr((phase, pol, min(sc["engine"]["memtable"], 4), min(len(W.writers), 3), in_flush, in_comp,
                      min(in_append, 2), info["wal_entries_lost"] > 0, info["memtable_entries_lost"] > 0,
@@ -522,9 +571,9 @@ def crash_recover_judge(W: World, label: str, C: dict, states: set, sc: dict, ph
         cands = sorted((o for o in durable if not _superseded(o, durable)), key=lambda o: o["seq"])
         d = cands[-1]
         want = S.wval(d)
-        ov = "after-overlapping-compactions" if W.watch.overlap_compactions else "compactions-never-overlapped"
+        ov = S.order_suffix(W.watch.overlap_compactions, W.fow.inverted)
         if d["seq"] == 0:
-            cause = "state-of-first-recovery-lost-by-second-crash"
+            cause = "state-of-first-recovery-lost-by-second-crash" + ("/after-out-of-order-flush-completion" if W.fow.inverted else "")
         elif d["seq"] in W.watch.trunc_unflushed and not W.watch.represented(d):
             cause = "wal-truncated-before-entry-reached-sstable"
         elif d["seq"] in pre_wal and d["seq"] not in post_wal:
@@ -615,6 +664,7 @@ COUNTERS = [
     "probe.compaction_requested_while_one_in_progress", "probe.wal_kept_entries_of_newer_memtable_across_flush",
     "probe.sync_api_write_in_workload", "workloads_sync_api_ops",
     "probe.follow_up_workload_wanted_compaction", "probe.compaction_ran_after_crash_inside_compaction_window",
+    "probe.crash_after_concurrent_flushes_with_different_write_times", "probe.second_crash_while_replayed_memtable_is_being_flushed",
 ]
 
 
